@@ -155,7 +155,12 @@ def probe_shared(obj, kind, X):
 
 
 def label_set(obj, f):
-    return list(obj.labels_per_values[f].values())
+    """the fitted labels of a feature, read off values_orders (not off the cached label table): ranks for float output; leaders for a qualitative feature with str
+    output; for a quantitative feature with str output the cached labels of the current leaders"""
+    order = obj.values_orders[f]; leaders = list(order)
+    if getattr(obj, 'output_dtype', 'str') == 'float': return [float(i) for i in range(len(leaders))]
+    if f in obj.qualitative_features: return leaders
+    return [obj.labels_per_values[f][l] for l in leaders if l in obj.labels_per_values[f]]
 
 
 def in_labels(v, labels):
